@@ -102,3 +102,9 @@ add("C07",
     "Log-scaled integer/finite value identities and IEEE round-off effects are outside (stated)",
     "symbolic execution of the real domain / range code through a numpy shim for scalar primitives (CrossHair engine + z3); log/exp as uninterpreted monotone inverse pairs with instantiated axioms",
     "DESIGN.md 4 C07")
+add("C06",
+    "bounded model checking: (a) imputation / de-duplication of partial initial points with symbolic integer bounds and symbolic given values vs a reference list (mid-point rule, order, all keys, membership); "
+    "(b) FIFO schedulers with random / grid / BO(pre-fit) searchers on a finite space of 6 configurations: symbolic structure of points_to_evaluate, symbolic complete/fail/pending events; suggestions typed, in-domain, constants unchanged, "
+    "initial points first and in order, no repeats, 'nothing left' only after all 6, grid exactly once. One real seed per obligation (the no-repeat clause is not claimed for every seed)",
+    "symbolic execution of the real searcher / scheduler code (CrossHair engine + z3), reference-list oracle",
+    "DESIGN.md 4 C06")
